@@ -364,9 +364,13 @@ pub enum Sched {
 /// (iteration k's schedule is a pure function of (seed, k) and the code). Panics (worker panics,
 /// deadlocks, step-limit) propagate to the caller.
 pub fn run_scheduled<F: Fn() + Send + Sync + 'static>(seed: u64, sched: Sched, iters: usize, f: F) {
+    run_scheduled_steps(seed, sched, iters, 2_000_000, f)
+}
+
+pub fn run_scheduled_steps<F: Fn() + Send + Sync + 'static>(seed: u64, sched: Sched, iters: usize, max_steps: usize, f: F) {
     let mut cfg = shuttle::Config::new();
     cfg.stack_size = 1 << 21;
-    cfg.max_steps = shuttle::MaxSteps::FailAfter(2_000_000);
+    cfg.max_steps = shuttle::MaxSteps::FailAfter(max_steps);
     cfg.failure_persistence = shuttle::FailurePersistence::None;
     cfg.silence_warnings = true;
     match sched {
